@@ -29,6 +29,8 @@ CLAIMED["C04"] = ("other", "Taint analysis of every raw write into the SQL text 
          "taint analysis over the derived output grammar + sanitizer escape-set recovery")
 CLAIMED["C05"] = ("other", "Bracket-depth abstract interpretation over every emitting function (path-sensitive), single terminator, and deadness of all placeholder branches by constructed-vs-handled set inclusion. Whether arbitrary accepted programs parse under ClickHouse is not decided.", "DESIGN.md §3 C05",
          "abstract interpretation of bracket depth over the derived grammar + exhaustiveness tables")
+CLAIMED["C06"] = ("other", "Provenance of the scope in every expression context, the single guarded lookup site as path facts, closedness class of stored let values from the derived grammar, let mode, lets after the query, store order, parameter copy. Evaluation equivalence of substituted SQL is not decided.", "DESIGN.md §3 C06",
+         "value-provenance over call sites + path facts at the lookup site + grammar class of the let production")
 NA = {}
 def main():
     props = [json.loads(l) for l in open('/verif/properties.jsonl')]
